@@ -786,7 +786,12 @@ fn gen_batch(rng: &mut Rng, twin: &DbMemory) -> Vec<QueryType> {
     let mut b: Vec<QueryType> = vec![];
     let node_count = twin.exec(QueryBuilder::select().node_count().query()).map(|r| r.result).unwrap_or(0);
     for i in 0..n {
-        let q: QueryType = match rng.below(19) {
+        let q: QueryType = match rng.below(21) {
+            // fails while the alias does not exist, would succeed if the batch were run again after a later batch created it
+            19 | 20 => {
+                let a = format!("a{}", rng.below(6));
+                QueryBuilder::insert().edges().from(a.clone()).to(a).query().into()
+            }
             // failing read-only queries (also as the last query of a batch, after all its mutations)
             16 => QueryBuilder::select().ids("alias_that_does_not_exist").query().into(),
             17 => QueryBuilder::select().ids(format!(":{}", i + 2 + rng.usize(3))).query().into(),
@@ -956,7 +961,35 @@ impl CaseEngine for C25 {
             if case == 0 {
                 rep.sample(|| json!({"batches": batches, "audit_entries": expected_audit.len()}));
             }
+            // restart: nothing is applied again and no failed batch becomes visible (file-backed kinds only: a memory
+            // database does not outlive the process)
+            let dir2 = server.dir.clone();
             server.stop().await;
+            if !matches!(kind, DbKind::Memory) {
+                let server = Server::start(&dir2, seed ^ 0x5eed, false).await?;
+                let admin = server.admin().await?;
+                tokio::time::sleep(Duration::from_millis(800)).await;
+                let fq = fingerprint_queries();
+                let (_, sf) = admin.admin_db_exec("owner", "db", &fq).await.map_err(|e| e.to_string())?;
+                let tf: Vec<QueryResult> = fq.iter().map(|q| match q {
+                    QueryType::SelectValues(x) => twin.exec(x),
+                    QueryType::SelectAllAliases(x) => twin.exec(x),
+                    QueryType::SelectIndexes(x) => twin.exec(x),
+                    QueryType::SelectNodeCount(x) => twin.exec(x),
+                    _ => unreachable!(),
+                }.unwrap_or_default()).collect();
+                let (_, audit) = admin.admin_db_audit("owner", "db").await.map_err(|e| e.to_string())?;
+                let got: Vec<(String, QueryType)> = audit.0.iter().map(|a| (a.username.clone(), a.query.clone())).collect();
+                rep.count("restarts_checked");
+                let ctx = json!({"engine":"c25","case":case,"seed":args.u64("seed",1),"tier":args.str("tier","quick"),"after":"restart"});
+                if sf != tf {
+                    rep.violation("C25:state_differs_after_restart", &format!("server fingerprint {} twin fingerprint {}", short(&sf), short(&tf)), ctx.clone());
+                }
+                if got != expected_audit {
+                    rep.violation("C25:audit_differs_after_restart", &format!("audit has {} entries after the restart, expected {}", got.len(), expected_audit.len()), ctx);
+                }
+                server.stop().await;
+            }
             Ok(())
         });
         drop(rt);
@@ -972,6 +1005,7 @@ impl CaseEngine for C25 {
         rep.require("batches_failed", 50);
         rep.require("failed_batches_whose_earlier_queries_had_mutated", 20);
         rep.require("audit_comparisons", 5);
+        rep.require("restarts_checked", 1);
         let _ = std::fs::remove_dir_all(args.str("scratch", "/verif/scratch/c25"));
     }
 }
